@@ -92,7 +92,7 @@ func (e *env) rapidStage(name, kind string, checks int, prop func(rt *rapid.T)) 
 	if os.Getenv("VERIF_SHRINKTIME") != "" {
 		_ = flag.Set("rapid.shrinktime", os.Getenv("VERIF_SHRINKTIME"))
 	} else {
-		_ = flag.Set("rapid.shrinktime", "20s")
+		_ = flag.Set("rapid.shrinktime", "6s")
 	}
 	e.r.Stage(name, kind, fmt.Sprintf("%d rapid cases, seed %d", checks, seed), false)
 	e.t.Run(name, func(st *testing.T) { rapid.Check(st, prop) })
